@@ -61,6 +61,7 @@ type State struct {
 	Ghost  map[string]*Term
 	Quants []*QFact
 	Dead   bool
+	forked bool // set on both states of a Clone while feasibility pruning is on
 }
 
 func (s *State) Clone() *State {
@@ -72,7 +73,10 @@ func (s *State) Clone() *State {
 	for k, v := range s.Ghost {
 		g[k] = v
 	}
-	return &State{Heap: h, PC: append([]*Term(nil), s.PC...), Ghost: g, Quants: append([]*QFact(nil), s.Quants...)}
+	if Feasible != nil {
+		s.forked = true
+	}
+	return &State{Heap: h, PC: append([]*Term(nil), s.PC...), Ghost: g, Quants: append([]*QFact(nil), s.Quants...), forked: Feasible != nil}
 }
 
 // skolemsOf lists the skolem constants (variables named sk.*) of a term.
@@ -209,7 +213,19 @@ func (s *State) Assume(t *Term) {
 		}
 	}
 	s.PC = append(s.PC, t)
+	if Feasible != nil && s.forked && !s.Dead {
+		// first assumption after a fork: is this side of the fork still possible?
+		s.forked = false
+		if !Feasible(s.PC) {
+			s.Dead = true
+		}
+	}
 }
+
+// Feasible, when set, is asked after every new assumption whether the path condition is still satisfiable; paths it
+// refutes are dropped. It is only switched on for harness-style jobs whose concrete shape makes most library forks
+// (short read / end of buffer) infeasible; "unknown" must be answered with true.
+var Feasible func(pc []*Term) bool
 
 // Intrinsic models a library function. It may fork by calling k several times.
 type Intrinsic func(fx *FnExec, fr *Frame, call *ssa.CallCommon, args []Value, st *State, site string, k func(*State, Value))
@@ -251,6 +267,7 @@ type Ctx struct {
 	objN         int
 	symN         int
 	globals      map[*ssa.Global]*Object
+	nextErrCode  uint64
 	globalHeap   map[*Object]Value
 	initDone     map[*ssa.Package]bool
 	initFinished map[*ssa.Package]bool
@@ -751,6 +768,15 @@ func (cx *Ctx) initPackageLocked(p *ssa.Package) {
 		cx.mu.Unlock()
 	}()
 	et := types.Universe.Lookup("error").Type()
+	sentinels := map[*Object]Value{}
+	defer func() {
+		// the initialiser assigns errors.New(...) to the sentinels; keep their distinguishing codes
+		cx.mu.Lock()
+		for o, v := range sentinels {
+			cx.globalHeap[o] = v
+		}
+		cx.mu.Unlock()
+	}()
 	for _, m := range p.Members {
 		if g, ok := m.(*ssa.Global); ok {
 			t := g.Type().(*types.Pointer).Elem()
@@ -758,8 +784,23 @@ func (cx *Ctx) initPackageLocked(p *ssa.Package) {
 			cx.mu.Lock()
 			cx.globals[g] = o
 			if types.Identical(t, et) {
-				// package-level error sentinels: distinct non-nil codes are not needed; "other"
-				cx.globalHeap[o] = ErrV{BVC(8, 3)}
+				// package-level error sentinels: io.EOF and io.ErrUnexpectedEOF have the codes the library models
+				// return; every other sentinel gets a code of its own (3 = errors created at run time), so that
+				// err == pkg.ErrX is not true of an arbitrary error
+				code := uint64(3)
+				switch g.String() {
+				case "io.EOF":
+					code = ErrEOF
+				case "io.ErrUnexpectedEOF":
+					code = ErrUEOF
+				default:
+					if cx.nextErrCode < 250 {
+						cx.nextErrCode++
+						code = 4 + cx.nextErrCode
+					}
+				}
+				cx.globalHeap[o] = ErrV{BVC(8, code)}
+				sentinels[o] = ErrV{BVC(8, code)}
 			} else {
 				cx.globalHeap[o] = cx.Zero(t)
 			}
